@@ -816,8 +816,45 @@ func (p c18) Eval(c *Case, outs []*Out) []Discrepancy {
 			continue
 		}
 		exit := o.Res.Exit
+		// what the injected faults actually hit (a sequence of faults diverges from the
+		// reference trace after the first one, so the plan is not authoritative)
+		if mr.Kind == "fault" {
+			openedW := map[string]bool{}
+			for _, ev := range o.Res.Trace {
+				if ev.Op == "openw" {
+					openedW[ev.Path] = true
+				}
+			}
+			nStderr, nFired := 0, 0
+			for _, f := range o.Res.Fired {
+				if !f.Misfit {
+					nFired++
+					if f.Path == "/dev/stderr" {
+						nStderr++
+					}
+				}
+			}
+			for _, f := range o.Res.Fired {
+				if f.Misfit {
+					continue
+				}
+				switch {
+				case f.Path == "/dev/stderr":
+					if nStderr == nFired {
+						mr.Target = "stderr"
+					} else {
+						mr.Target = "multi+stderr"
+					}
+				case f.Op == "openw" || f.Op == "mkdirall" || f.Op == "mkdir" || f.Op == "write" || f.Fault.Kind == "lost" || (f.Op == "close" && openedW[f.Path]):
+					mr.WriteSide = true
+				}
+				if f.Fault.Kind == "eof" && (strings.HasSuffix(f.Path, ".yaml") || strings.HasSuffix(f.Path, ".yml")) {
+					mr.NoCompare = true
+				}
+			}
+		}
 		// S1
-		if exit != 0 && len(bytes.TrimSpace(o.Stderr)) == 0 && !(mr.Kind == "fault" && mr.Target == "stderr") {
+		if exit != 0 && len(bytes.TrimSpace(o.Stderr)) == 0 && !(mr.Kind == "fault" && strings.HasSuffix(mr.Target, "stderr")) {
 			add("S1", "silent-failure", fmt.Sprintf("exit %d with empty stderr", exit))
 		}
 		// a replay on a different tree may land the fault on another operation than
